@@ -40,6 +40,12 @@ impl TW {
                 .s("backend", cfg.backend)
                 .s("wrap", cfg.wrap)
                 .i("cap", if cfg.backend == "slice" { cap_words as i64 } else { -1 })
+                // bytes the backend's storage holds before the first write (-1: not a memory backend)
+                .i("init", match cfg.backend {
+                    "slice" => (cap_words * cfg.w / 8) as i64,
+                    "vec" => (vec_presize(cap_words) * cfg.w / 8) as i64,
+                    _ => -1,
+                })
                 .b("checks", cfg!(feature = "checks"))
                 .b("has_counter", w.counter().is_some()),
         );
